@@ -177,6 +177,75 @@ theorem committed_state_verified {h : List Char} (c : CommitPair uOld uNew h)
   · cases h'
   · injection h'
 
+/-! ## Opening for writing: recovery of an interrupted patch, patching on, prefixes of the file list -/
+
+/-- **Recovery continues the interrupted session, in every writable mode.** When the complete file
+set of a crash state opens with the interrupted container recognisably uncommitted (second outcome
+of `crash_trichotomy`), a writable open (`"r+"` and `"a"` alike — the model has no mode argument
+because the code only tests `mode != "r"`) re-opens that container; no container is created, so
+nothing is ever stacked on an uncommitted patch, and the steps that follow are again crash states
+of the same session (`Reach.filling` with the same `d0`, `nn`, `uOld`). -/
+theorem recover_reopens {h : List Char} (c : CommitPair uOld uNew h) (next : Nat → Name)
+    {s : List (File P M)} {p : P} {ok : Bool} {m : Option M} {l : List Name}
+    (hx : openRec H HM mfAware d l = .ok (s ++ [⟨uOld.toUB, p, ok, m⟩])) :
+    openRecW H HM mfAware next d l = .ok .reopen := by
+  unfold openRecW
+  rw [hx]
+  simp [Except.map, writableAct, UBT.toUB, c.hashOld]
+
+/-- a writable open re-opens an existing container for writing only if it is the newest one and
+carries no hash: a committed container is never opened for writing -/
+theorem reopen_only_uncommitted (next : Nat → Name) {l : List Name}
+    (hx : openRecW H HM mfAware next d l = .ok .reopen) :
+    ∃ s f, openRec H HM mfAware d l = .ok s ∧ s.getLast? = some f ∧ f.ub.hash = none := by
+  unfold openRecW at hx
+  rcases hs : openRec H HM mfAware d l with e | s
+  · rw [hs] at hx; cases hx
+  · rw [hs] at hx
+    rcases hl : s.getLast? with _ | f
+    · simp [Except.map, writableAct, hl] at hx
+    · refine ⟨s, f, rfl, hl, ?_⟩
+      rcases hh : f.ub.hash with _ | g
+      · rfl
+      · exfalso
+        simp only [Except.map, writableAct, hl, hh, Option.isNone_some] at hx
+        by_cases ht : (d.cont (next (f.ub.idx + 1))).isSome = true <;> simp [ht] at hx
+
+/-- a writable open creates a container only on top of a newest container that is committed, and
+only under a name that is free (`h5py.File(path, "x")`): this is `hfresh` of `crash_trichotomy`
+for the session that follows, so by `crash_frame` no existing file is touched -/
+theorem create_only_fresh (next : Nat → Name) {l : List Name}
+    (hx : openRecW H HM mfAware next d l = .ok .create) :
+    ∃ s f, openRec H HM mfAware d l = .ok s ∧ s.getLast? = some f ∧ f.ub.hash.isSome = true ∧
+      d.cont (next (f.ub.idx + 1)) = none := by
+  unfold openRecW at hx
+  rcases hs : openRec H HM mfAware d l with e | s
+  · rw [hs] at hx; cases hx
+  · rw [hs] at hx
+    rcases hl : s.getLast? with _ | f
+    · simp [Except.map, writableAct, hl] at hx
+    · refine ⟨s, f, rfl, hl, ?_⟩
+      rcases hh : f.ub.hash with _ | g
+      · simp [Except.map, writableAct, hl, hh] at hx
+      · rcases hc : d.cont (next (f.ub.idx + 1)) with _ | x
+        · simp
+        · simp [Except.map, writableAct, hl, hh, hc] at hx
+
+/-- **A writable open of a strict prefix of the file list is refused**: when the files opened end
+in a committed container and the name of the next patch is taken (as it is when later containers
+of the record sit in the same directory), the answer is `FileExistsError` — nothing is created,
+nothing is written. -/
+theorem prefix_open_refused (next : Nat → Name) {l : List Name} {s : List (File P M)} {f : File P M}
+    {x : CFile P}
+    (hs : openRec H HM mfAware d l = .ok s) (hl : s.getLast? = some f) (hh : f.ub.hash.isSome = true)
+    (ht : d.cont (next (f.ub.idx + 1)) = some x) :
+    openRecW H HM mfAware next d l = .ok .refuse := by
+  unfold openRecW
+  rw [hs]
+  rcases hq : f.ub.hash with _ | g
+  · rw [hq] at hh; cases hh
+  · simp [Except.map, writableAct, hl, hq, ht]
+
 /-! ## Non-vacuity: a concrete session on top of a committed base container -/
 
 section Example
@@ -223,6 +292,29 @@ example :
       .ok ([fBase] ++ [⟨uN.toUB, 8, ok, xd.mf "rec.p1.ih5"⟩])) :=
   crash_trichotomy EH EM false ex_pair ex_committed (nn := "rec.p1.ih5") (by decide) rfl (by decide)
     (Reach.committing 300 true) _ (Perm.swap _ _ _)
+/-- patch names as made by `_next_patch_filepath` -/
+def xnext (i : Nat) : Name := s!"rec.p{i}.ih5"
+
+set_option maxRecDepth 8000 in
+/-- recovery: the base alone is committed, a writable open creates `rec.p1.ih5` (the name is free) -/
+example : openRecW EH EM false xnext xd0 ["rec.ih5"] = .ok .create := by
+  unfold openRecW
+  rw [ex_committed]
+  decide
+
+set_option maxRecDepth 8000 in
+/-- strict prefix: on the crash disk `xd` the name `rec.p1.ih5` is taken, so a writable open of the
+base alone is refused (`prefix_open_refused` applies) -/
+example : openRecW EH EM false xnext xd ["rec.ih5"] = .ok .refuse := by
+  have hr : Reach xd0 "rec.p1.ih5" uO uN 8 xd := Reach.committing 300 true
+  have ho : openRec EH EM false xd ["rec.ih5"] = .ok [fBase] := by
+    rw [crash_committed_opens EH EM false hr (ns := ["rec.ih5"]) (by decide)]
+    exact ex_committed
+  have hn : xnext (fBase.ub.idx + 1) = "rec.p1.ih5" := by decide
+  refine prefix_open_refused EH EM false xnext ho (f := fBase) rfl rfl
+    (x := ⟨torn 300 (written (zeros UBSIZE) uO) (frame SZ1024 uN), 8, true⟩) ?_
+  rw [hn]
+  simp [xd, Disk.setC]
 end Example
 
 end MetadorModel.C11
